@@ -26,7 +26,7 @@ import vlib
 sys.path.insert(0, os.path.join(vlib.ROOT, "tools"))
 
 PROPERTY = "C15"
-LEAN_MODULES = ["TapkeeVerif.Props.C15"]
+LEAN_MODULES = ["TapkeeVerif.Props.C15", "TapkeeVerif.Gen.OmpRegionProofs"]
 LEAN_EXES = ["model_c15"]
 REQUIRED_THEOREMS = [
     "TapkeeVerif.Omp.race_free_deterministic",
@@ -35,13 +35,15 @@ REQUIRED_THEOREMS = [
     "TapkeeVerif.Omp.region_deterministic",
     "TapkeeVerif.Omp.regions_covered",
     "TapkeeVerif.Omp.all_regions_race_free",
+    "TapkeeVerif.Omp.known_regions_present",
     "TapkeeVerif.Omp.exact_regions_no_critical",
     "TapkeeVerif.Omp.weight_regions_critical_append_only",
-] + ["TapkeeVerif.Omp.disjoint_" + n for n in (
-    "compute_diffusion_matrix", "compute_distance_matrix_1", "compute_distance_matrix_2",
-    "compute_shortest_distances_matrix_1", "compute_shortest_distances_matrix_2",
-    "compute_shortest_distances_matrix_1_fib", "compute_shortest_distances_matrix_2_fib",
-    "hessian_weight_matrix", "linear_weight_matrix", "tangent_weight_matrix", "matrix_from_callback", "triangulate")]
+    "TapkeeVerif.Omp.disjoint_compute_diffusion_matrix", "TapkeeVerif.Omp.disjoint_compute_distance_matrix",
+    "TapkeeVerif.Omp.disjoint_compute_shortest_distances_matrix", "TapkeeVerif.Omp.disjoint_weight_matrices",
+    "TapkeeVerif.Omp.disjoint_matrix_from_callback", "TapkeeVerif.Omp.disjoint_triangulate",
+    "TapkeeVerif.Gen.OmpRegionProofs.all_race_free",
+]
+_STATIC_REQUIRED = list(REQUIRED_THEOREMS)
 
 THREADS = [1, 2, 3, 8, 16]
 TOL_INTERMEDIATE = Fraction(1, 10 ** 10)   # property text: intermediate matrices agree to 1e-10 relative
@@ -71,9 +73,11 @@ def start_builds(ctx):
             "emb": ("c15_omp.cpp", "c15_emb", emb_flags(), "g++")}
     tree = sched_tree(ctx)
     jobs["sched"] = ("c15_omp.cpp", "c15_sched", sched_flags(tree), "g++")
+    # ThreadSanitizer is the only reach into word-level races (bit-packed containers, false sharing of flags): a small
+    # pass runs in quick too (the build is cached per tree like the others)
+    jobs["tsan"] = ("c15_omp.cpp", "c15_tsan", tsan_flags(), "clang++-14")
     if not quick:
         jobs["fib"] = ("c15_omp.cpp", "c15_fib", quick_flags() + ["-DTAPKEE_USE_FIBONACCI_HEAP"], "g++")
-        jobs["tsan"] = ("c15_omp.cpp", "c15_tsan", tsan_flags(), "clang++-14")
     _JOBS.update(jobs)
     ex = concurrent.futures.ThreadPoolExecutor(max_workers=len(jobs))
     for k, v in jobs.items():
@@ -87,6 +91,8 @@ def translate(ctx):
     s = translate_omp.translate(repo=vlib.REPO, repo_hash=ctx.repo_hash)
     _SUMMARY.clear()
     _SUMMARY.update(s)
+    # one generated, audited disjointness theorem per region of the table
+    REQUIRED_THEOREMS[:] = _STATIC_REQUIRED + ["TapkeeVerif.Gen.OmpRegionProofs.disjoint_" + g["name"] for g in s["regions"]]
     ctx.log("translator: %d pragmas, %d regions, Gen/OmpRegions.lean %s" % (
         len(s["pragmas"]), len(s["regions"]), "rewritten" if s["changed"] else "unchanged"))
 
@@ -389,12 +395,62 @@ def region_for(routine):
     return None
 
 
+RESULT_ARRAY = {"dist": "distance_matrix", "distl": "distance_matrix", "cli": "result", "tri": "embedding",
+                "diff": "diffusion_matrix", "geo": "shortest_distances", "geol": "shortest_distances",
+                "wlin": "sparse_triplets", "wtan": "sparse_triplets", "whes": "sparse_triplets"}
+
+
+def _isnum(x):
+    return x.lstrip("-").isdigit()
+
+
+def model_tokens(ctx, g, p):
+    """footprint of every iteration according to the table, grouped by array: {array: set((kind, row, col, iteration))}"""
+    vals = {"N": p["N"], "n_vectors": p["N"], "end - begin": p["N"], "N_landmarks": p.get("L", p["N"]),
+            "n_landmarks": p.get("L", p["N"]), "n_neighbors": p.get("k", 1), "k": p.get("k", 1)}
+    svals = [vals.get(sym, p["N"]) for sym in g["syms"]] or [p["N"]]
+    bound = max(p["N"], p.get("L", 0), 1)
+    rc, model, err = ctx.run_model("model_c15", ["foot region=%s s=%s B=%d" % (g["name"], ",".join(map(str, svals)), bound)])
+    if rc != 0 or not model:
+        ctx.broken("model-driver", "model_c15", "model driver failed: %s" % err[-300:])
+        return None, ""
+    by = {}
+    for t in model[0].split():
+        parts = t.split(":")
+        if len(parts) != 5:
+            continue
+        kind, arr, rr, cc, ii = parts
+        by.setdefault(arr, set()).add((kind, rr, cc, ii))
+    return by, model[0]
+
+
+def weight_block(routine, i, nb):
+    """positions of the triplets iteration i appends (routines/locally_linear.hpp)"""
+    out = set()
+    if routine in ("wlin", "wtan"):
+        out.add((i, i))
+    for a in nb:
+        if routine == "wlin":
+            out.add((a, i))
+            out.add((i, a))
+        if routine == "wtan":
+            out.add((a, a))
+        for b in nb:
+            out.add((a, b))
+    return out
+
+
 def footprints(ctx, runner):
-    """coded callbacks: entry (r,c) of the result was produced by iteration a  ==  the table's write set of iteration a"""
+    """The table against the running code.  Coded callbacks / the position of the zero in a geodesic row tell which
+    iteration produced which entry (row) of the result: that must be the table's write set of that iteration.  For the
+    weight matrices the stored pattern of the result must be the union of the triplet blocks of exactly the iterations
+    the table lists as appending under `critical`."""
     n_ok = 0
-    for routine, sizes in (("dist", [(1, {}), (5, {}), (9, {})]), ("cli", [(1, {}), (4, {}), (8, {})]),
-                           ("distl", [(7, {"L": 4}), (9, {"L": 9})]), ("tri", [(8, {"L": 3}), (12, {"L": 5})]),
-                           ("diff", [(6, {})])):
+    plan = (("dist", [(1, {}), (5, {}), (9, {})]), ("cli", [(1, {}), (4, {}), (8, {})]),
+            ("distl", [(7, {"L": 4}), (9, {"L": 9})]), ("tri", [(8, {"L": 3}), (12, {"L": 5})]), ("diff", [(6, {})]),
+            ("geo", [(6, {"k": 3}), (11, {"k": 4})]), ("geol", [(9, {"k": 3, "L": 4}), (12, {"k": 4, "L": 12})]),
+            ("wlin", [(9, {"k": 4, "D": 3})]), ("wtan", [(9, {"k": 4, "D": 3, "d": 2})]), ("whes", [(10, {"k": 7, "D": 3, "d": 2})]))
+    for routine, sizes in plan:
         g = region_for(routine)
         if g is None:
             ctx.broken("corr:region-missing:" + routine, "correspondence c15 (table has no region for routine %s)" % routine,
@@ -410,49 +466,65 @@ def footprints(ctx, runner):
                     ctx.fail("abort:%s:trace" % routine, "routine %s aborts in trace mode: %s" % (routine, o["err"][:200]),
                              case={"routine": routine, "params": p, "threads": [T], "line": line})
                     continue
-                size = p["L"] if routine == "distl" else N
-                svals = {"distl": [size], "tri": [N]}.get(routine, [N])
-                rc, model, err = ctx.run_model("model_c15", ["foot region=%s s=%s B=%d" % (
-                    g["name"], ",".join(map(str, svals)), max(size, 1))])
-                if rc != 0 or not model:
-                    ctx.broken("model-driver", "model_c15", "model driver failed: %s" % err[-300:])
+                by, mline = model_tokens(ctx, g, p)
+                if by is None:
                     return
-                mtoks = set(t for t in model[0].split() if t.startswith("w:"))
-                arr = g["arrays"][0]
                 ctx.count("foot %s N=%d T=%d" % (routine, N, T), nontrivial=N > 1)
                 ctx.stat("footprint-comparisons")
-                if routine == "diff":
-                    calls = set(tuple(map(int, c.split(":"))) for c in o.get("calls", "").split(";") if c)
-                    mcalls = set()
-                    parse_ok = True
-                    for t in mtoks:
-                        _, _, rr, cc, ii = t.split(":")
-                        if not (rr.lstrip("-").isdigit() and cc.lstrip("-").isdigit() and ii.lstrip("-").isdigit()):
-                            parse_ok = False        # a wildcard index: the table no longer has the expected shape
-                            continue
-                        if rr == ii:
-                            mcalls.add((int(ii), int(cc)))
-                    good = parse_ok and calls == mcalls and o.get("split") == "0"
-                    what = "callback invocations (iteration, inner index) %s vs table iteration space %s" % (
-                        sorted(calls ^ mcalls)[:6], "")
-                else:
-                    otoks = set("w:%s:%s" % (arr, t) for t in o.get("W", "").split(";") if t)
-                    if routine == "tri":
-                        # rows of landmarks are written before the region (and skipped inside it): the table's footprint
-                        # is the superset `every iteration writes its own row`
-                        good = otoks <= mtoks and len(mtoks - otoks) == p["L"] and o.get("split") == "0"
+                # the result array: by NAME; if the variable was renamed, any written array whose footprint matches
+                pref = RESULT_ARRAY[routine]
+                cands = [pref] if pref in by else sorted(by)
+                good, what = False, "the table lists no written array"
+                for arr in cands:
+                    toks = by[arr]
+                    writes = set(t for t in toks if t[0].startswith("w"))
+                    if routine == "diff":
+                        calls = set(tuple(map(int, c.split(":"))) for c in o.get("calls", "").split(";") if c)
+                        ok_shape = all(_isnum(t[1]) and _isnum(t[2]) and _isnum(t[3]) for t in writes)
+                        mcalls = set((int(t[3]), int(t[2])) for t in writes if ok_shape and t[1] == t[3])
+                        good = ok_shape and calls == mcalls and o.get("split") == "0"
+                        what = "callback invocations (iteration, inner index) vs table iteration space differ at %s" % sorted(calls ^ mcalls)[:6]
+                    elif routine in ("geo", "geol"):
+                        obs = set(tuple(t.split(":")[::2]) for t in o.get("W", "").split(";") if t)       # (row, iteration)
+                        mod = set((t[1], t[3]) for t in writes)
+                        good = obs == mod and all(_isnum(a) for _, a in obs)
+                        what = "rows written per iteration: observed-only %s, table-only %s" % (sorted(obs - mod)[:5], sorted(mod - obs)[:5])
+                    elif routine in APPROX_ROUTINES:
+                        appends = set(t for t in toks if t[0] == "ac")
+                        iters = sorted(int(t[3]) for t in appends if _isnum(t[3]))
+                        nb = [[int(x) for x in row.split(",") if x] for row in o.get("nb", "").split(";")]
+                        expect = set()
+                        for it in iters:
+                            if it < len(nb):
+                                expect |= weight_block(routine, it, nb[it])
+                        vals = list(o["vals"].values())
+                        seen = set(parse_sparse(vals[0])) if vals else set()
+                        good = bool(appends) and expect == seen and all(t[1] == "*" and t[2] == "*" for t in appends) \
+                            and not (toks - appends)
+                        what = "stored pattern vs union of the triplet blocks of the table's iterations %s: pattern-only %s, blocks-only %s" % (
+                            iters[:3] + ["..."], sorted(seen - expect)[:4], sorted(expect - seen)[:4])
                     else:
-                        good = otoks == mtoks and o.get("split") == "0"
-                    what = "observed writers %s vs table %s" % (sorted(otoks - mtoks)[:5], sorted(mtoks - otoks)[:5])
+                        otoks = set(tuple(t.split(":")) for t in o.get("W", "").split(";") if t)      # (row, col, iteration)
+                        mod = set((t[1], t[2], t[3]) for t in writes)
+                        if routine == "tri":
+                            # rows of landmarks are written before the region (and skipped inside it): the table's
+                            # footprint is the superset `every iteration writes its own row`
+                            good = otoks <= mod and len(mod - otoks) == p["L"] and o.get("split") == "0"
+                        else:
+                            good = otoks == mod and o.get("split") == "0"
+                        what = "observed writers %s vs table %s" % (sorted(otoks - mod)[:5], sorted(mod - otoks)[:5])
+                    if good:
+                        break
                 if good:
                     n_ok += 1
+                    ctx.stat("footprint-ok:" + routine)
                     if n_ok <= 2:
-                        ctx.sample({"footprint": line, "impl": (o.get("W") or o.get("calls"))[:160], "model": model[0][:160]})
+                        ctx.sample({"footprint": line, "impl": (o.get("W") or o.get("calls") or "")[:160], "model": mline[:160]})
                 else:
                     ctx.stat("footprint-mismatch")
                     ctx.broken("corr:footprint:" + routine, "correspondence c15 footprint (%s, region %s)" % (routine, g["name"]),
                                "the write footprint observed on the running code differs from the generated table: " + what,
-                               case=line, detail={"impl": o.get("W") or o.get("calls"), "model": model[0]})
+                               case=line, detail={"impl": (o.get("W") or o.get("calls") or o.get("nb") or "")[:2000], "model": mline[:2000]})
     ctx.extra["footprints_agreeing"] = n_ok
 
 
@@ -620,10 +692,23 @@ def tsan_flags():
             "-isystem", "/root/miniconda/include", "-isystem", "/usr/include/eigen3"]
 
 
-def tsan_run(ctx, binary):
+def tsan_run(ctx, binary, quick=False):
     """supporting evidence only: ThreadSanitizer + Archer on the same harness"""
     r = ctx.rng.fork()
     lines = []
+    if quick:
+        # every routine once, 8 threads, small inputs
+        for routine in EXACT_ROUTINES + APPROX_ROUTINES:
+            p = gen_params(r, routine, True, False)
+            p["N"] = min(max(p["N"], 16), 40)
+            for kk in ("L", "k"):
+                if kk in p:
+                    p[kk] = max(2, min(p[kk], p["N"] // 2))
+            if routine == "whes":
+                p["k"] = max(p["k"], 1 + p["d"] + p["d"] * (p["d"] + 1) // 2 + 1)
+                p["N"] = max(p["N"], p["k"] + 3)
+            lines.append((routine, case_line(routine, 8, p, reps=2)))
+        return tsan_lines(ctx, binary, lines)
     for routine in EXACT_ROUTINES + APPROX_ROUTINES:
         for _ in range(2):
             p = gen_params(r, routine, False, False)
@@ -713,7 +798,7 @@ def replay_case(ctx, replay):
 # ----------------------------------------------------------------------------- main
 def correspond(ctx):
     quick = ctx.tier == "quick"
-    props_ok = bool(getattr(ctx, "lean_target_ok", {}).get(LEAN_MODULES[0], False))
+    props_ok = all(bool(getattr(ctx, "lean_target_ok", {}).get(m, False)) for m in LEAN_MODULES)
     translator_ok = bool(_SUMMARY.get("regions"))
     hunt = not (props_ok and translator_ok)       # an obligation broke: spend the budget on finding a failing input
     if hunt:
@@ -728,17 +813,23 @@ def correspond(ctx):
     # which theorem broke? (diagnostic for the report)
     if not props_ok and ctx.lean_log:
         names = sorted(set(re.findall(r"disjoint_\w+|regions_covered|\w+_deterministic", ctx.lean_log)))
-        lines = [l for l in ctx.lean_log.split("\n") if "error" in l][:6]
+        lines = [l for l in ctx.lean_log.split("\n") if "error" in l][:40]
         ctx.extra["broken_obligations"] = {"mentioned": names, "errors": lines}
-        src = open(os.path.join(vlib.LEAN_DIR, "TapkeeVerif", "Props", "C15.lean")).read().split("\n")
         for l in lines:
-            m = re.search(r"C15\.lean:(\d+):", l)
+            m = re.search(r"TapkeeVerif/((?:Props|Gen)/\w+)\.lean:(\d+):", l)
             if m:
-                k = int(m.group(1))
+                try:
+                    src = open(os.path.join(vlib.LEAN_DIR, "TapkeeVerif", m.group(1) + ".lean")).read().split("\n")
+                except OSError:
+                    continue
+                k = int(m.group(2))
                 while k > 0 and not re.match(r"\s*theorem\s+(\S+)", src[k - 1]):
                     k -= 1
                 if k > 0:
-                    ctx.log("   broken:", re.match(r"\s*theorem\s+(\S+)", src[k - 1]).group(1))
+                    name = re.match(r"\s*theorem\s+(\S+)", src[k - 1]).group(1)
+                    if name not in ctx.extra["broken_obligations"].setdefault("theorems", []):
+                        ctx.extra["broken_obligations"]["theorems"].append(name)
+                        ctx.log("   broken:", name)
 
     # ---- builds (started in the background by translate())
     if not _BUILDS:
@@ -867,9 +958,8 @@ def correspond(ctx):
     ctx.log("public API runs done")
     # ---- ThreadSanitizer (supporting evidence)
     if "tsan" in runners:
-        tsan_run(ctx, runners["tsan"].binary)
-    elif quick:
-        ctx.extra["tsan"] = {"skipped": "thorough tier only"}
+        tsan_run(ctx, runners["tsan"].binary, quick)
+    ctx.extra.setdefault("tsan", {"skipped": "clang++-14 -fsanitize=thread -fopenmp build unavailable"})
 
     regs = _SUMMARY.get("regions") or []
     ctx.extra["regions"] = [{"name": g["name"], "file": g["file"], "line": g["line"], "loop": "%s in [%s, %s)" % (g["loopVar"], g["loopLo"], g["loopHi"]),
